@@ -46,6 +46,17 @@ MUTANTS = [
      "aldy.sam.Sample._make_coverage@fold-one-entry", "observations-land-in-the-folded-cell"),
     ("aldy/sam.py", "                    norm[pos] = norm[pos][:-10]", "                    norm[read.pos - 1] = norm[read.pos - 1][:-10]",
      "aldy.sam.Sample._load_vcf@genotype-copy", "ten-reference-observations-removed"),
+    ("aldy/diplotype.py", "        mutations |= set(a.added)\n        mutations -= set(a.missing)", "        mutations |= set(a.missing)\n        mutations -= set(a.missing)",
+     "aldy.diplotype.write_decomposition@carried-variants", "definition-plus-additions-minus-losses"),
+    ("aldy/sam.py", "                    self._dump_cn,\n                    {p: Counter(q) for p, q in norm.items()},", "                    dict(self._dump_cn),\n                    {p: Counter(q) for p, q in norm.items()},",
+     "aldy.sam.Sample._dump_alignments", "field-2-neutral-depth-table"),
+    ("aldy/sam.py", "        self.profile.min_avg_coverage = 2.0", "        pass", "aldy.sam.Sample._load_dump@restore", "profile-run-settings-reset"),
+    ("aldy/gene.py", "                        pos = pos + len(l) - 1\n", "                        pos = pos + len(l)\n",
+     "aldy.gene.Gene._init_alleles.process_mutation@strand-conversion", "reverse/substitution"),
+    ("aldy/gene.py", "                    if self.regions[g][rg].end - self.regions[g][rg].start <= 0:", "                    if self.regions[g][rg].end - self.regions[g][rg].start < 0:",
+     "aldy.gene.Gene._init_alleles@empty-regions", "empty-regions-have-no-copies"),
+    ("aldy/diplotype.py", "        elif len(solution.solution) == 1:\n            major_dict[del_allele].append(-1)", "        elif len(solution.solution) == 1:\n            pass",
+     "aldy.diplotype.estimate_diplotype@deletion-placeholders", "one-placeholder-per-missing-copy"),
     ("aldy/coverage.py", "            if q >= self.profile.min_quality", "            if q > self.profile.min_quality", "aldy.coverage.Coverage.quality_filter", "post"),
 ]
 SLOW = [
